@@ -277,7 +277,7 @@ func c14Families(tier string) []explore.Family {
 		r.Eval()
 		want := Render(eng, "{% assign asg = 'S' %}"+inlined+"{{ asg }}", map[string]any{"top": "T", "l": []any{1, 2}})
 		if want.Err != nil || want.Panic != nil {
-			panic("harness: inlined reference fails: " + want.String())
+			panic(explore.BaselineFailure{Msg: "harness: inlined reference fails: " + want.String()})
 		}
 		if o.Err != nil || o.Out != want.Out {
 			r.Violation("N1:differs-from-inlined", desc(), want.String(), o.String())
